@@ -7,6 +7,7 @@ import (
 	"sort"
 	"strings"
 	"time"
+	"unicode"
 
 	"github.com/itchyny/gojq"
 	"verif/mc/engine"
@@ -227,8 +228,8 @@ func c11CheckPair(a, b any) (bool, string) {
 var c11KeyFuncs = []string{".", ".a?", "type", "length?", ".[0]?", "(.a?, .b?)"}
 
 type c11Consumers struct {
-	sort, unique, min, max *gojq.Code
-	keys                    []*gojq.Code // [f]
+	sort, unique, min, max                  *gojq.Code
+	keys                                    []*gojq.Code // [f]
 	sortBy, groupBy, uniqueBy, minBy, maxBy []*gojq.Code
 }
 
@@ -285,8 +286,8 @@ func (cc *c11Consumers) checkArray(arr []any, count func()) string {
 	in := func() any { return append([]any{}, arr...) }
 	// plain sort / unique / min / max use the element itself as key
 	type spec struct {
-		name                          string
-		keyIdx                        int
+		name                             string
+		keyIdx                           int
 		sortC, groupC, uniqC, minC, maxC *gojq.Code
 	}
 	specs := []spec{{"", -1, cc.sort, nil, cc.unique, cc.min, cc.max}}
@@ -934,6 +935,107 @@ func c11Run(c *engine.Ctx) {
 	}
 	rec(0, nil)
 	c.Sample(map[string]any{"keys": ks[:4]})
+
+	// key order of --yaml-output: every set of 2..3 plain keys (no quoting needed) from a set where code-point order and
+	// "natural" order (digit runs as numbers, case folded) differ
+	c.Sub("yaml-key-order")
+	if c.MineIdx(2) {
+		yk := []string{"a", "B", "a10", "a2", "a1", "b", "A1", "a02", "Z", "z", "a1b", "a10b", "ab", "aB"}
+		WorkDir()
+		var sets [][]string
+		for i := range yk {
+			for j := i + 1; j < len(yk); j++ {
+				sets = append(sets, []string{yk[i], yk[j]})
+				for k := j + 1; k < len(yk); k++ {
+					sets = append(sets, []string{yk[i], yk[j], yk[k]})
+				}
+			}
+		}
+		for _, set := range sets {
+			c.Eval()
+			obj := map[string]any{}
+			for i, k := range set {
+				obj[k] = i
+			}
+			text, _ := json.Marshal(obj)
+			r := RunCLIString([]string{"--yaml-output", "."}, string(text))
+			var got []string
+			for _, ln := range strings.Split(strings.TrimSpace(r.Stdout), "\n") {
+				if i := strings.IndexByte(ln, ':'); i > 0 {
+					got = append(got, ln[:i])
+				}
+			}
+			want := append([]string{}, set...)
+			sort.Strings(want)
+			c.DistinctN(1)
+			if r.Status != 0 || len(got) != len(set) {
+				c.Violation("yaml keys "+strings.Join(set, ","), "key-order-mismatch", map[string]any{"keys": set, "msg": fmt.Sprintf("status %d, output %q", r.Status, r.Stdout)})
+				continue
+			}
+			if strings.Join(got, ",") == strings.Join(want, ",") {
+				c.Outcome("yaml key order: agrees")
+				continue
+			}
+			// the recorded finding: the order is exactly the YAML library's natural order
+			kind := "key-order-mismatch"
+			nat := append([]string{}, set...)
+			sort.SliceStable(nat, func(i, j int) bool { return c11YAMLNaturalLess(nat[i], nat[j]) })
+			if strings.Join(got, ",") == strings.Join(nat, ",") {
+				kind = "deviation:yaml-natural-key-order"
+			}
+			c.Outcome("yaml key order: " + kind)
+			c.Violation("yaml keys "+strings.Join(set, ","), kind, map[string]any{"keys": set, "msg": fmt.Sprintf("--yaml-output prints the keys as %v, keys gives %v", got, want)})
+		}
+		c.Sample(map[string]any{"object": `{"a10":0,"a2":1}`, "yaml": "a2 before a10", "keys": "a10 before a2", "sets": len(sets)})
+	}
+}
+
+// c11YAMLNaturalLess is the key order of the YAML encoder the command uses (go-yaml's sorter: letters by code point,
+// digit runs by value, a letter against a non-letter depending on whether a digit run is open), kept here only to
+// attribute a disagreement to that library's documented behaviour and to nothing else.
+func c11YAMLNaturalLess(a, b string) bool {
+	ar, br := []rune(a), []rune(b)
+	digits := false
+	for i := 0; i < len(ar) && i < len(br); i++ {
+		if ar[i] == br[i] {
+			digits = unicode.IsDigit(ar[i])
+			continue
+		}
+		al, bl := unicode.IsLetter(ar[i]), unicode.IsLetter(br[i])
+		if al && bl {
+			return ar[i] < br[i]
+		}
+		if al || bl {
+			if digits {
+				return al
+			}
+			return bl
+		}
+		var ai, bi int
+		var an, bn int64
+		if ar[i] == '0' || br[i] == '0' {
+			for j := i - 1; j >= 0 && unicode.IsDigit(ar[j]); j-- {
+				if ar[j] != '0' {
+					an, bn = 1, 1
+					break
+				}
+			}
+		}
+		for ai = i; ai < len(ar) && unicode.IsDigit(ar[ai]); ai++ {
+			an = an*10 + int64(ar[ai]-'0')
+		}
+		for bi = i; bi < len(br) && unicode.IsDigit(br[bi]); bi++ {
+			bn = bn*10 + int64(br[bi]-'0')
+		}
+		if an != bn {
+			return an < bn
+		}
+		if ai != bi {
+			return ai < bi
+		}
+		return ar[i] < br[i]
+	}
+	return len(ar) < len(br)
 }
 
 func c11Replay(v *engine.Violation) (bool, string) {
@@ -957,6 +1059,8 @@ func c11Replay(v *engine.Violation) (bool, string) {
 	}
 	arr := func() []any { a, _ := val("tarr").([]any); return a }
 	switch v.Check {
+	case "yaml-key-order":
+		return true, fmt.Sprint(d["msg"]) // a deterministic single command, recorded as found
 	case "pairs":
 		return c11CheckPair(val("ta"), val("tb"))
 	case "triples":
